@@ -13,6 +13,7 @@ mod seeds;
 mod cmpx;
 mod c01;
 mod c02;
+mod c03;
 mod c04;
 mod c05;
 mod c06;
@@ -75,6 +76,7 @@ fn main() {
     match id.as_str() {
         "C01" => c01::run(&ctx, &mut rep),
         "C02" => c02::run(&ctx, &mut rep),
+        "C03" => c03::run(&ctx, &mut rep),
         "C04" => c04::run(&ctx, &mut rep),
         "C05" => c05::run(&ctx, &mut rep),
         "C06" => c06::run(&ctx, &mut rep),
